@@ -8,7 +8,7 @@ CLASSES = ['garbage', 'empty', 'json-not-object', 'heads-null', 'heads-empty', '
            'head-no-identity', 'head-identity-null', 'head-identity-empty', 'head-identity-no-signatures', 'head-no-clock',
            'head-clock-null', 'head-no-hash', 'head-no-sig', 'head-no-key', 'head-no-payload', 'head-no-id', 'head-ill-typed',
            'heads-ill-typed', 'address-unknown', 'address-missing', 'address-ill-typed', 'huge-numbers', 'deep-nesting',
-           'truncated-real', 'mutated-real', 'real-hash-alias', 'real-payload-changed']
+           'truncated-real', 'mutated-real', 'real-hash-alias', 'real-payload-changed', 'head-links-to-malformed-block']
 
 
 def wire_cfg(nmal, nval):
